@@ -226,3 +226,35 @@ theorem NPDA.readStepwise_mono (M : NPDA σ α γ) (fuel fuel' : Nat) (w : List 
   rw [M.run_mono fuel _ d h]
 
 end AV.PDA
+
+namespace AV.PDA
+set_option linter.unusedSectionVars false
+variable {σ α γ τ : Type} [DecidableEq σ] [DecidableEq α] [DecidableEq γ]
+
+/-- The driver's size-guarded run is the model's `run` at some fuel `≤` the requested one. -/
+theorem NPDA.guardedRun_eq_run (M : NPDA σ α γ) (cap : Nat) :
+    ∀ (fuel : Nat) (cur : List (Config σ α γ)), ∃ fuel', fuel' ≤ fuel ∧
+      M.guardedRun cap fuel cur = M.run fuel' cur := by
+  intro fuel
+  induction fuel with
+  | zero => intro cur; exact ⟨0, Nat.le_refl _, rfl⟩
+  | succ fuel ih =>
+    intro cur
+    cases cur with
+    | nil => exact ⟨1, by omega, by simp [NPDA.guardedRun, NPDA.run]⟩
+    | cons c rest =>
+      cases hx : M.expandLevel (c :: rest) [] with
+      | none => exact ⟨1, by omega, by simp [NPDA.guardedRun, NPDA.run, hx]⟩
+      | some nxt =>
+        cases hc : decide (cap < nxt.length) with
+        | true => exact ⟨1, by omega, by simp [NPDA.guardedRun, NPDA.run, hx, hc]⟩
+        | false =>
+          obtain ⟨f', hf', h⟩ := ih nxt
+          exact ⟨f' + 1, by omega, by simp [NPDA.guardedRun, NPDA.run, hx, hc, h]⟩
+
+theorem NPDA.guardedReadStepwise_eq (M : NPDA σ α γ) (cap fuel : Nat) (w : List α) :
+    ∃ fuel', fuel' ≤ fuel ∧ M.guardedReadStepwise cap fuel w = M.readStepwise fuel' w := by
+  obtain ⟨f', hf', h⟩ := M.guardedRun_eq_run cap fuel [M.start w]
+  exact ⟨f', hf', by simp [NPDA.guardedReadStepwise, NPDA.readStepwise, h]⟩
+
+end AV.PDA
